@@ -17,8 +17,8 @@
                  duplicate-name retry; interchange level inference        -> ps_record, ps_scan, ps_walk
      pycdlib.py  _interchange_level_from_filename / _from_directory           -> ps_level_file / _dir
      dr.py       DirectoryRecord.parse (parent given)                         -> Codec.parse_dr (reused)
-                 the XA / Rock Ridge detection in the bytes after the name (14 bytes or more, or one
-                 of the Rock Ridge signatures): such a record is outside the fragment -> ps_outside, PUnsupported 1
+                 the XA / Rock Ridge detection in the bytes after the name: a record with an 'XA'
+                 or a Rock Ridge signature there is outside the fragment      -> ps_outside, PUnsupported 1
      dr.py       __lt__, bisect.bisect_left (a real binary search), _add_child (check_overflow =
                  False), _recalculate_extents_and_offsets(index)              -> ps_lt, ps_bisect, ps_track
      dr.py       record() of a PARSED record (stored dr_len and len_fi)       -> ps_rec_bytes
@@ -227,13 +227,18 @@ Definition ps_link_gen (fixed : bool) (isz : Z) (st : pstate) (ext dl : Z) : nat
 
 Definition ps_link : Z -> pstate -> Z -> Z -> nat * Z * pstate := ps_link_gen true.
 
-(* the bytes after the identifier (and its pad): XARecord.parse gives up on fewer than 14 bytes; a Rock Ridge
-   record is recognised by one of 15 two-byte signatures.  Anything that could be either is outside the fragment *)
+(* the bytes after the identifier (and its pad).  XARecord.parse: for offset in (0, len_fi rounded up to even):
+   fewer than 14 bytes left -> no XA record (at once); bytes 6..7 = 'XA' -> an XA record.  Otherwise a Rock
+   Ridge record is recognised by one of 15 two-byte signatures.  Either one is outside the fragment *)
 Definition ps_rr_sigs : list (Z * Z) :=
   [(83, 80); (82, 82); (67, 69); (80, 88); (69, 82); (69, 83); (80, 78); (83, 76); (78, 77); (67, 76);
    (80, 76); (84, 70); (83, 70); (82, 69); (65, 76)].   (* SP RR CE PX ER ES PN SL NM CL PL TF SF RE AL *)
-Definition ps_outside (su : list Z) : bool :=
-  (14 <=? zlen su)
+Definition ps_xa_sig (s : list Z) : bool := (nth 6 s 0 =? 88) && (nth 7 s 0 =? 65).
+Definition ps_outside (su : list Z) (len_fi : Z) : bool :=
+  (if zlen su <? 14 then false
+   else ps_xa_sig su
+        || (let s2 := skipn (Z.to_nat (len_fi + len_fi mod 2)) su in
+            if zlen s2 <? 14 then false else ps_xa_sig s2))
   || match su with
      | a :: b :: _ => existsb (fun s => (fst s =? a) && (snd s =? b)) ps_rr_sigs
      | _ => false
@@ -249,7 +254,7 @@ Definition ps_record (ptr : list Z) (isz : Z) (sl : pstate * option (list Z)) (r
   match parse_dr record with
   | None => PInvalid 2
   | Some r =>
-      if ps_outside (sysuse r) then PUnsupported 1 else
+      if ps_outside (sysuse r) (znth 32 record) then PUnsupported 1 else
       let is_dir := ps_is_dir r in
       let dots := ps_is_dot r || ps_is_dotdot r in
       let '(ino, dlen1, st1) :=
